@@ -26,6 +26,9 @@ SCRIPTS = {
     "K": [("divarr",), ("enter", 0), ("mularr",), ("idivarr",), ("exit",), ("subarr",)],
     "L": [("mul0d",), ("enter", 0), ("imul0d",), ("exit",), ("mul0d",)],
     "M": [("subzeros",), ("enter", 0), ("isubzeros",), ("exit",), ("addzeros",)],
+    # plain lists on the left of + (reflected addition), also all-zero ones: array-like operands like any other (only the scalar 0 of sum() is special)
+    "O": [("negfloat",), ("enter", 0), ("divneg",), ("exit",), ("setnegfloat",)],
+    "N": [("raddzerolist",), ("enter", 0), ("raddlist",), ("exit",), ("raddzerolist",)],
 }
 
 
@@ -67,10 +70,10 @@ def _task(E, config, h_factory, script, vals, log):
             h = h_factory()
             r = E.attempt(lambda: h + np.asarray([1, 2]))
             log.append(("arith", "refused" if isinstance(r, Raised) else "accepted"))
-        elif op in ("divarr", "mularr", "subarr", "idivarr", "mul0d", "imul0d", "subzeros", "addzeros", "isubzeros"):
+        elif op in ("divarr", "mularr", "subarr", "idivarr", "mul0d", "imul0d", "subzeros", "addzeros", "isubzeros", "raddlist", "raddzerolist"):
             h = h_factory()
             arr = np.asarray([1, 2]) if op not in ("mul0d", "imul0d") else np.asarray(2)    # a 0-d array is an array-like operand, not a scalar
-            if op in ("subzeros", "addzeros", "isubzeros"):
+            if op in ("subzeros", "addzeros", "isubzeros", "raddlist", "raddzerolist"):
                 arr = np.zeros(2)       # an all-zero array is still an array-like operand
 
             def run_arr():
@@ -86,6 +89,10 @@ def _task(E, config, h_factory, script, vals, log):
                     return h - arr
                 if op == "addzeros":
                     return h + arr
+                if op == "raddlist":
+                    return [1, 2] + h
+                if op == "raddzerolist":
+                    return [0, 0] + h
                 if op == "isubzeros":
                     gz = h
                     gz -= arr
@@ -100,6 +107,20 @@ def _task(E, config, h_factory, script, vals, log):
             h = h_factory()
             r = E.attempt(lambda: h * (-1))
             log.append(("neg", "refused" if isinstance(r, Raised) else "accepted"))
+        elif op in ("negfloat", "divneg", "setnegfloat"):
+            # negative *float* contents: a fractional negative factor, a negative divisor, float values through the setter
+            h = h_factory()
+
+            def run_f():
+                if op == "negfloat":
+                    return h * (-0.5)
+                if op == "divneg":
+                    return h / (-2)
+                h.frequencies = np.asarray([1.0, -2.5])
+                return h
+
+            r = E.attempt(run_f)
+            log.append((op, "refused" if isinstance(r, Raised) else "accepted"))
         elif op in ("addneg", "iaddneg", "subover", "setneg"):
             h = h_factory()
             negative = h_factory.negative()
@@ -148,12 +169,12 @@ class C19Schedules(Harness):
     bounds_doc = "2 tasks (quick) / 3 tasks with scripts of 4..7 steps from {enter(v), exit, exit-by-exception, assignment, read, array arithmetic, negative factor} incl. nesting; the values v, the main context's value and the environment default are symbolic / enumerated; the schedule (which task takes the next step) is a symbolic integer sequence forked over all interleavings"
 
     def instances(self, tier):
-        pairs = [("A", "B"), ("C", "D"), ("E", "A"), ("B", "C"), ("F", "G"), ("K", "I"), ("L", "I"), ("M", "I")] if tier == "quick" else list(itertools.combinations_with_replacement("ABCDE", 2)) + [("F", "G"), ("F", "B"), ("G", "E"), ("F", "F"), ("K", "I"), ("K", "B"), ("L", "I"), ("L", "G"), ("M", "I")]
+        pairs = [("A", "B"), ("C", "D"), ("E", "A"), ("B", "C"), ("F", "G"), ("K", "I"), ("L", "I"), ("M", "I"), ("N", "I"), ("O", "I")] if tier == "quick" else list(itertools.combinations_with_replacement("ABCDE", 2)) + [("F", "G"), ("F", "B"), ("G", "E"), ("F", "F"), ("K", "I"), ("K", "B"), ("L", "I"), ("L", "G"), ("M", "I"), ("N", "I"), ("N", "B"), ("O", "I"), ("O", "G")]
         for a, b in pairs:
             for kinds in (("copy", "copy"), ("copy", "fresh"), ("fresh", "fresh")):
                 if tier == "quick" and kinds == ("fresh", "fresh") and (a, b) != ("A", "B"):
                     continue
-                if tier == "quick" and (a, b) in (("F", "G"), ("K", "I"), ("L", "I"), ("M", "I")) and kinds != ("copy", "fresh"):
+                if tier == "quick" and (a, b) in (("F", "G"), ("K", "I"), ("L", "I"), ("M", "I"), ("N", "I"), ("O", "I")) and kinds != ("copy", "fresh"):
                     continue
                 yield f"sched-{a}{b}-{kinds[0]}-{kinds[1]}", dict(scripts=[a, b], kinds=list(kinds), env="unset")
         if tier != "quick":
@@ -161,6 +182,9 @@ class C19Schedules(Harness):
             yield "sched-HHI-copy-copy-fresh", dict(scripts=["H", "H", "I"], kinds=["copy", "copy", "fresh"], env="unset")
         for env in ("0", "1", "true", ""):
             yield f"sched-DD-env{env or 'empty'}", dict(scripts=["D", "D"], kinds=["fresh", "copy"], env=env)
+        # the environment default stays set while contexts are entered / values assigned: it never overrules them
+        for env in ("1", "0"):
+            yield f"sched-AI-env{env}", dict(scripts=["A", "I"], kinds=["fresh", "copy"], env=env)
 
     def declare(self, cx, p):
         T = len(p["scripts"])
@@ -188,14 +212,14 @@ class C19Schedules(Harness):
         else:
             os.environ["PHYST_FREE_ARITHMETICS"] = p["env"]
         old_instance, old_cfg = cfgmod._Config._instance, hb.config
+        # (the variable keeps its value for the whole run, as a process environment does: it is the *default*, nothing that is set
+        # or entered later may be overruled by it)
         try:
             cfgmod._Config._instance = None
             config = cfgmod._Config()
-        finally:
-            if old_env is None:
-                os.environ.pop("PHYST_FREE_ARITHMETICS", None)
-            else:
-                os.environ["PHYST_FREE_ARITHMETICS"] = old_env
+        except Exception:
+            self._restore_env(old_env)
+            raise
         hb.config = config
         try:
             def h_factory():
@@ -239,6 +263,16 @@ class C19Schedules(Harness):
         finally:
             hb.config = old_cfg
             cfgmod._Config._instance = old_instance
+            self._restore_env(old_env)
+
+    @staticmethod
+    def _restore_env(old_env):
+        import os
+
+        if old_env is None:
+            os.environ.pop("PHYST_FREE_ARITHMETICS", None)
+        else:
+            os.environ["PHYST_FREE_ARITHMETICS"] = old_env
 
     def oracle(self, cx, p, x, obs):
         yield "no_harness_exception", obs.get("raised") is None
@@ -258,7 +292,7 @@ class C19Schedules(Harness):
                     yield f"refused_operation_stores_nothing_negative[{t}][{k}]", entry[2] is True
                 if op == "read":
                     yield f"read[{t}][{k}]", cx.b(got) == ref[k]
-                elif op in ("arith", "divarr", "mularr", "subarr", "idivarr", "mul0d", "imul0d", "subzeros", "addzeros", "isubzeros"):
+                elif op in ("arith", "divarr", "mularr", "subarr", "idivarr", "mul0d", "imul0d", "subzeros", "addzeros", "isubzeros", "raddlist", "raddzerolist"):
                     yield f"array_operand[{t}][{k}]", z3.BoolVal(got == "accepted") == ref[k]
-                elif op in ("neg", "addneg", "iaddneg", "subover", "setneg"):
+                elif op in ("neg", "addneg", "iaddneg", "subover", "setneg", "negfloat", "divneg", "setnegfloat"):
                     yield f"negative_content[{t}][{k}]", z3.BoolVal(got == "accepted") == ref[k]
